@@ -64,7 +64,7 @@ fn world_step(w: &mut World, g: usize, rng: &mut Rng, exclude: Option<usize>, s:
                 continue;
             }
             let admin = w.is_admin_now(m, g);
-            let kind = if admin { rng.pick(&[CommitKind::SelfUpdate, CommitKind::Rename, CommitKind::Describe, CommitKind::Relays, CommitKind::Image]).clone() } else { CommitKind::SelfUpdate };
+            let kind = if admin { rng.pick(&[CommitKind::SelfUpdate, CommitKind::Rename, CommitKind::Describe, CommitKind::Relays, CommitKind::RelaysNone, CommitKind::Image]).clone() } else { CommitKind::SelfUpdate };
             let ts = w.t + rng.below(2) as u64;
             if w.act_commit(m, g, &kind, ts, OwnMode::Echo, rng.next() % 100_000, rng).is_some() {
                 made += 1;
